@@ -25,8 +25,8 @@ CONSTANT Dev   \* named deviations of the implementation; {} = intended algorith
 
 VDevIds == {"D_C02_ANY_LAYOUT_KEY", "D_C08_EXIT_STATUS_IGNORED"}
 
-VARIABLES scn, stack, verdict, why, ran, written, cwd, summary
-vars == <<scn, stack, verdict, why, ran, written, cwd, summary>>
+VARIABLES scn, stack, verdict, why, ran, written, cwd, summary, warns
+vars == <<scn, stack, verdict, why, ran, written, cwd, summary, warns>>
 
 SR(s) == {s[i] : i \in DOMAIN s}
 Doc(i) == scn.docs[i]
@@ -61,14 +61,14 @@ Running(pc) == verdict = "run" /\ stack # << >> /\ Top.pc = pc
 Fail(stage) ==
   /\ verdict' = "err"
   /\ why' = [stage |-> stage, depth |-> Len(stack)]
-  /\ UNCHANGED <<scn, stack, summary>>
+  /\ UNCHANGED <<scn, stack, summary, warns>>
 
 Goto(pc) == stack' = SetTop([Top EXCEPT !.pc = pc])
 
 VInitRest ==
   /\ stack = << NewFrame(1, scn.ckeys, << >>, "") >>
   /\ verdict = "run" /\ why = [stage |-> "", depth |-> 0]
-  /\ ran = << >> /\ written = {} /\ cwd = scn.cwd /\ summary = EmptyLink
+  /\ ran = << >> /\ written = {} /\ cwd = scn.cwd /\ summary = EmptyLink /\ warns = {}
 
 -----------------------------------------------------------------------------
 \* 1. layout signatures: threshold = number of caller map entries, keys = its values
@@ -80,14 +80,14 @@ LayoutSig ==
      IN IF L.typ = "layout" /\ L.sigs # << >> /\ t >= 1 /\ Cardinality(good) >= t
         THEN Goto("expiry") /\ UNCHANGED <<verdict, why>>
         ELSE Fail("layout_sig")
-  /\ UNCHANGED <<scn, ran, written, cwd, summary>>
+  /\ UNCHANGED <<scn, ran, written, cwd, summary, warns>>
 
 \* 2. expiry
 Expiry ==
   /\ Running("expiry")
   /\ IF L.expires < scn.now THEN Fail("expiry")
      ELSE Goto("load") /\ UNCHANGED <<verdict, why>>
-  /\ UNCHANGED <<scn, ran, written, cwd, summary>>
+  /\ UNCHANGED <<scn, ran, written, cwd, summary, warns>>
 
 \* 3. link loading: <step>.????????.link, filed under the first signature whose
 \*    id prefix equals the file-name part; an unparsable file aborts
@@ -106,7 +106,7 @@ LoadLinks ==
         ELSE /\ stack' = SetTop([Top EXCEPT !.pc = "linksig",
                          !.loaded = [n \in StepNames(L) |-> Candidates(Top.dir, StepOf(L, n))]])
              /\ UNCHANGED <<verdict, why>>
-  /\ UNCHANGED <<scn, ran, written, cwd, summary>>
+  /\ UNCHANGED <<scn, ran, written, cwd, summary, warns>>
 
 \* 4. per-step signature thresholds: signer in the layout's key table, authorised
 \*    for the step, and a valid signature by exactly that key
@@ -130,7 +130,7 @@ LinkSigs ==
                                          e \in {x \in cnt[n] : Doc(x.doc).typ = "layout"}} :
                                       n \in StepNames(L)}])
              /\ UNCHANGED <<verdict, why>>
-  /\ UNCHANGED <<scn, ran, written, cwd, summary>>
+  /\ UNCHANGED <<scn, ran, written, cwd, summary, warns>>
 
 \* 5. sub-layouts: full verification with the single delegating key, in <step>.<keyid8>/
 EnterSub ==
@@ -138,10 +138,19 @@ EnterSub ==
   /\ \E p \in Top.pending :
        stack' = Append(SetTop([Top EXCEPT !.pending = @ \ {p}, !.cur = [step |-> p.step, kid |-> p.kid]]),
                        NewFrame(p.doc, OneKey(p.kid), SubDir(Top.dir, p.step, p.kid), p.step))
-  /\ UNCHANGED <<scn, verdict, why, ran, written, cwd, summary>>
+  /\ UNCHANGED <<scn, verdict, why, ran, written, cwd, summary, warns>>
 
 SubDone ==
   /\ Running("sub") /\ Top.pending = {}
+  /\ Goto("align")
+  /\ UNCHANGED <<scn, verdict, why, ran, written, cwd, summary, warns>>
+
+\* 5b. command alignment: a recorded command that differs from the step's expected command is
+\*     only WARNED about - this stage never fails and never changes what is verified
+ExpectedCmd(s) == "c." \o s.name
+CommandAlign ==
+  /\ Running("align")
+  /\ warns' = warns \cup {s.name : s \in {x \in SR(L.steps) : \E e \in Top.ev[x.name] : e.link.cmd # ExpectedCmd(x)}}
   /\ Goto("agree")
   /\ UNCHANGED <<scn, verdict, why, ran, written, cwd, summary>>
 
@@ -153,7 +162,7 @@ Agreement ==
                            a.link.mats # b.link.mats \/ a.link.prods # b.link.prods
      THEN Fail("agreement")
      ELSE Goto("reduce") /\ UNCHANGED <<verdict, why>>
-  /\ UNCHANGED <<scn, ran, written, cwd, summary>>
+  /\ UNCHANGED <<scn, ran, written, cwd, summary, warns>>
 
 \* 7. reduction: one representative link per step - WHICH one is left open
 \*    (the code iterates a hash map; C13 demands only that the choice be stable)
@@ -166,7 +175,7 @@ Reduce ==
                /\ stack' = SetTop([Top EXCEPT !.pc = "rules",
                                    !.red = [n \in StepNames(L) |-> pick[n].link]])
           /\ UNCHANGED <<verdict, why>>
-  /\ UNCHANGED <<scn, ran, written, cwd, summary>>
+  /\ UNCHANGED <<scn, ran, written, cwd, summary, warns>>
 
 \* 8. artifact rules of every step
 ItemOf(x) == [name |-> x.name, em |-> x.em, ep |-> x.ep]
@@ -176,7 +185,7 @@ StepRules ==
   /\ IF \A s \in SR(L.steps) : ItemOk(ItemOf(s), Top.red, {})
      THEN Goto("inspect") /\ UNCHANGED <<verdict, why>>
      ELSE Fail("step_rules")
-  /\ UNCHANGED <<scn, ran, written, cwd, summary>>
+  /\ UNCHANGED <<scn, ran, written, cwd, summary, warns>>
 
 \* 9. inspections, in order, in the working directory
 Sentinel(I) == [p |-> <<"S", ".">> \o I.namec, d |-> "he"]
@@ -210,12 +219,12 @@ RunInspection ==
                                      THEN [mats |-> cwd, prods |-> after, cmd |-> "", byp |-> ""]
                                      ELSE Top.red[n]]])
                      /\ UNCHANGED <<verdict, why, scn, summary>>
-  /\ UNCHANGED scn
+  /\ UNCHANGED <<scn, warns>>
 
 InspectionsDone ==
   /\ Running("inspect") /\ Top.ii > Len(L.inspect)
   /\ Goto("irules")
-  /\ UNCHANGED <<scn, verdict, why, ran, written, cwd, summary>>
+  /\ UNCHANGED <<scn, verdict, why, ran, written, cwd, summary, warns>>
 
 \* 10. artifact rules of every inspection
 InspectRules ==
@@ -223,7 +232,7 @@ InspectRules ==
   /\ IF \A I \in SR(L.inspect) : ItemOk(ItemOf(I), Top.red, {})
      THEN Goto("summary") /\ UNCHANGED <<verdict, why>>
      ELSE Fail("inspect_rules")
-  /\ UNCHANGED <<scn, ran, written, cwd, summary>>
+  /\ UNCHANGED <<scn, ran, written, cwd, summary, warns>>
 
 \* 11. summary link: first step's materials, last step's products / command / byproducts
 SummaryOf(f) ==
@@ -245,9 +254,9 @@ Finish ==
                    [parent EXCEPT !.ev = [parent.ev EXCEPT ![p.step] =
                        @ \cup {[kid |-> p.kid, link |-> SummaryOf(Top)]}]]]
              /\ UNCHANGED <<verdict, why, summary>>
-  /\ UNCHANGED <<scn, ran, written, cwd>>
+  /\ UNCHANGED <<scn, ran, written, cwd, warns>>
 
-VNext == LayoutSig \/ Expiry \/ LoadLinks \/ LinkSigs \/ EnterSub \/ SubDone \/ Agreement
+VNext == LayoutSig \/ Expiry \/ LoadLinks \/ LinkSigs \/ EnterSub \/ SubDone \/ CommandAlign \/ Agreement
          \/ Reduce \/ StepRules \/ RunInspection \/ InspectionsDone \/ InspectRules \/ Finish
 
 VTerminal == verdict \in {"ok", "err"}
